@@ -18,6 +18,7 @@
 #
 
 import logging
+import threading
 logger = logging.getLogger(__name__)
 
 from collections import deque, defaultdict
@@ -65,6 +66,7 @@ class Interface(object):
     def __init__(self, app=None, import_base_namespaces=False,
                                         documents_container=InterfaceDocuments):
         self.__ns_counter = 0
+        self.__ns_lock = threading.Lock()
         self.__app = None
         self.url = None
         self.classes = {}
@@ -410,20 +412,20 @@ class Interface(object):
             raise TypeError(ns)
 
         if not (ns in self.prefmap):
-            pref = "s%d" % self.__ns_counter
-            while pref in self.nsmap:
-                self.__ns_counter += 1
-                pref = "s%d" % self.__ns_counter
+            # prefixes are also allocated lazily, from request threads
+            with self.__ns_lock:
+                if not (ns in self.prefmap):
+                    pref = "s%d" % self.__ns_counter
+                    while pref in self.nsmap:
+                        self.__ns_counter += 1
+                        pref = "s%d" % self.__ns_counter
 
-            self.prefmap[ns] = pref
-            self.nsmap[pref] = ns
+                    self.nsmap[pref] = ns
+                    self.prefmap[ns] = pref
 
-            self.__ns_counter += 1
+                    self.__ns_counter += 1
 
-        else:
-            pref = self.prefmap[ns]
-
-        return pref
+        return self.prefmap[ns]
 
     def add_class(self, cls, add_parent=True):
         if self.has_class(cls):
